@@ -6,7 +6,10 @@ Components
              `LogFrame.exec`; Lean monitor `wellFramedB` on the real file; per-writer order; JSON round trip;
              raw-write monitor (`rawWritesOkB` per opened handle + `allMergesFramedB`: every interleaving of two
              appends' raw write(2) chunks parses into complete lines) — also on rewrite and the staged flush.
-  rewrite    exact: real `rewrite_jsonl` vs `LogFrame.rewritePayload`; Lean `wellFramedB`; records preserved.
+  rewrite    exact: real `rewrite_jsonl` vs `LogFrame.rewritePayload`; Lean `wellFramedB`; records preserved — with
+             `records` given as every kind of Iterable[dict]: list, tuple, dict view, and ONE-SHOT iterables (generator,
+             iterator, filter, map, a generator streaming the records out of the very file being rewritten); empty
+             input; lines above 64 KiB.
   stager     exact: real `LogStager` / `default_key_for` driven by the batch driver's drain-flush-retry
              loop vs `LogStager.runBatch`; Lean monitors (sorted flushes, lossless, per-file order).
   batch      the REAL loop of `_run_agents_parallel_batch` (compute/apply stubbed through the
@@ -807,11 +810,51 @@ class RewriteComp(FrozenComp):
                     break
                 except Exception:
                     continue
-        if recs and rng.random() < 0.2:
+        if recs and rng.random() < 0.3:
             k = rng.randrange(len(recs))
             recs[k] = add_pad(rng, recs[k])
+            if rng.random() < 0.5:  # one record well above 64 KiB
+                recs[k]["pad"] = rng.choice(PAD_CHARS) * rng.choice([66_000, 70_000, 100_000])
         return {"ci_env": rng.choice(CI_VALUES), "name": name, "recs": recs,
-                "pre": rng.choice([None, "", "old line\n", "torn"])}
+                "pre": rng.choice([None, "", "old line\n", "torn"]), "shape": rng.choice(self.SHAPES)}
+
+    #: `records: Iterable[dict]` — re-iterable containers AND one-shot iterables (a second pass over
+    #: the latter sees nothing); `self_reader` streams the records back out of the very file being compacted.
+    SHAPES = ["list", "tuple", "generator", "iterator", "filter", "map", "self_reader", "dict_values"]
+
+    @staticmethod
+    def effective_recs(case: dict) -> List[Dict[str, Any]]:
+        """the records the iterable yields (self_reader: after the JSON round trip through the file)."""
+        if case.get("shape") == "self_reader":
+            return [json.loads(json.dumps(r, ensure_ascii=False)) for r in case["recs"]]
+        return case["recs"]
+
+    @staticmethod
+    def make_iterable(case: dict, path: Path):
+        recs = [dict(r) for r in case["recs"]]
+        shape = case.get("shape", "list")
+        if shape == "tuple":
+            return tuple(recs)
+        if shape == "generator":
+            return (r for r in recs)
+        if shape == "iterator":
+            return iter(recs)
+        if shape == "filter":
+            return filter(lambda r: True, recs)
+        if shape == "map":
+            return map(dict, recs)
+        if shape == "dict_values":
+            return {i: r for i, r in enumerate(recs)}.values()
+        if shape == "self_reader":
+            path.write_text("".join(json.dumps(r, ensure_ascii=False) + "\n" for r in recs), encoding="utf-8")
+
+            def reader():
+                with open(path, "r", encoding="utf-8", newline="\n") as f:
+                    for line in f:
+                        if line.strip():
+                            yield json.loads(line)
+            return reader()
+        return recs
 
     def impl_(self, case: dict) -> Any:
         from clematis.io.log import rewrite_jsonl
@@ -819,9 +862,10 @@ class RewriteComp(FrozenComp):
         try:
             if case["pre"] is not None:
                 (d / case["name"]).write_text(case["pre"], encoding="utf-8")
+            records = self.make_iterable(case, d / case["name"])
             rec_raw = record_raw_writes()
             with with_ci(case["ci_env"]), with_logdir(d), rec_raw:
-                rewrite_jsonl(case["name"], [dict(r) for r in case["recs"]])
+                rewrite_jsonl(case["name"], records)
             data = (d / case["name"]).read_bytes()
             others = sorted(x.name for x in d.iterdir() if x.name != case["name"])
         finally:
@@ -830,7 +874,7 @@ class RewriteComp(FrozenComp):
         return {"file": data.decode("utf-8"), "others": others, "raw": raw}
 
     def request_(self, case: dict) -> dict:
-        ns = model_normalize_many(case["ci_env"], case["name"], case["recs"])
+        ns = model_normalize_many(case["ci_env"], case["name"], self.effective_recs(case))
         return {"c": "c16.rewrite", "lines": [canon_dumps(n) for n in ns]}
 
     def compare_(self, case, impl_out, model_out):
@@ -845,7 +889,7 @@ class RewriteComp(FrozenComp):
     def monitor_requests_(self, case, impl_out):
         from clematis.engine.util.io_logging import normalize_for_identity
         with with_ci(case["ci_env"]):
-            lines = [canon_dumps(normalize_for_identity(case["name"], r)) for r in case["recs"]]
+            lines = [canon_dumps(normalize_for_identity(case["name"], r)) for r in self.effective_recs(case)]
         rq = [("rewrite_well_framed", {"c": "c16.wellframed", "file": impl_out["file"], "lines": lines})]
         chunks = [c for g in impl_out.get("raw", []) for c in g]
         if sum(len(c) for c in chunks) == len(impl_out["file"].encode("utf-8")) and chunks:
@@ -862,8 +906,9 @@ class RewriteComp(FrozenComp):
         except Exception as e:
             return [("rewrite_lines_are_json", False, str(e))]
         with with_ci(case["ci_env"]):
-            exp = [json.loads(json.dumps(normalize_for_identity(case["name"], r))) for r in case["recs"]]
+            exp = [json.loads(json.dumps(normalize_for_identity(case["name"], r))) for r in self.effective_recs(case)]
         return [("rewrite_preserves_records", parsed == exp and (raw == "" or raw.endswith("\n")),
+                 f"records given as {case.get('shape', 'list')}: {len(parsed)} lines for {len(exp)} records; "
                  f"parsed={json.dumps(parsed)[:200]} expected={json.dumps(exp)[:200]}"),
                 ("rewrite_no_stray_files", impl_out["others"] == [], f"{impl_out['others']}")]
 
@@ -875,6 +920,15 @@ class RewriteComp(FrozenComp):
             t.add("replaces_existing")
         if case["ci_env"].lower() == "true" and case["name"] in IDENT:
             t.add("normalised")
+        shape = case.get("shape", "list")
+        one_shot = shape in ("generator", "iterator", "filter", "map", "self_reader")
+        t.add("shape_" + shape)
+        if not case["recs"]:
+            t.add("empty_one_shot" if one_shot else "empty")
+        elif one_shot:
+            t.add("one_shot_iterable")
+        if any(len(l) > 65536 for l in impl_out.get("file", "").split("\n")):
+            t.add("line_above_64KiB_one_shot" if one_shot else "line_above_64KiB")
         return sorted(t) or ["default"]
 
     def shrink_(self, case):
@@ -1618,7 +1672,7 @@ def run(ctx: Ctx) -> None:
             if comp.name == "append":
                 warm_normalize_cache(ctx, comp, lambda c: [r for q in c["qs"] for r in q])
             elif comp.name == "rewrite":
-                warm_normalize_cache(ctx, comp, lambda c: c["recs"])
+                warm_normalize_cache(ctx, comp, RewriteComp.effective_recs)
             run_component(ctx, comp)
             _NORM_CACHE.clear()
         if ctx.tier != "search":
